@@ -2,7 +2,7 @@
 """Independent confirmation of a seeded change delivered in <worktree>/seeds/<n>/: apply the patch in the
 scratch worktree, build, run the repo's tests (must still pass), run the demonstration (must fail), revert,
 rebuild, run the demonstration again (must pass).  On success copy the seed to /verif/seeded/<ID>-<n>/.
-  tools/seedconfirm.py <worktree> <ID> <n>"""
+  tools/seedconfirm.py <worktree> <ID> <n> [<number under seeded/>]"""
 import json, os, shutil, subprocess, sys
 VERIF = os.path.dirname(os.path.dirname(os.path.abspath(__file__)))
 
@@ -42,6 +42,7 @@ def run_demo(wt, sd):
 
 def main():
     wt, pid, n = sys.argv[1], sys.argv[2], sys.argv[3]
+    destn = sys.argv[4] if len(sys.argv) > 4 else n
     sd = os.path.join(wt, "seeds", n)
     rep = {}
     sh(["git", "-C", wt, "checkout", "--", "."])
@@ -64,7 +65,7 @@ def main():
     rep["confirmed"] = good
     print(json.dumps(rep, indent=1)[:1500])
     if good:
-        dst = os.path.join(VERIF, "seeded", "%s-%s" % (pid, n))
+        dst = os.path.join(VERIF, "seeded", "%s-%s" % (pid, destn))
         shutil.rmtree(dst, ignore_errors=True)
         shutil.copytree(sd, dst)
         meta = json.load(open(os.path.join(dst, "meta.json")))
